@@ -102,6 +102,7 @@ static void check_line(const int *idx, int n0, int marks)
 	check_cps(cp, n0, marks);
 }
 
+static unsigned long n_cases;
 static void check_cps(const unsigned *cpin, int n0, int marks)
 {
 	static const int tds[] = {-2, -1, 0, 1, 2};
@@ -119,6 +120,9 @@ static void check_cps(const unsigned *cpin, int n0, int marks)
 	cp[n0] = '\n';
 	s[len++] = '\n';
 	s[len] = '\0';
+	nv_case_str = s;
+	if ((++n_cases & 0xfff) == 0)
+		nv_guard(120, "c18-hang", "a block of 4096 lines%s", "");
 #define BAD(slug, what, ...) do { nv_viol(slug, "kind=line s=\"%s\" td=%d order=%d lim=%d " what, nv_esc(s, len), xtd, xorder, xlim, __VA_ARGS__); return; } while (0)
 	for (it = 0; it < 5; it++) {
 		int ctx;
@@ -422,6 +426,7 @@ nextcur:	;
 int main(int argc, char **argv)
 {
 	nv_init(argc, argv);
+	nv_crash_guard("c18-crash");
 	dir_init();
 	part_reorder(atoi(nv_arg(argc, argv, "maxlen", nv_thorough ? "7" : "5")));
 	part_shape();
